@@ -53,8 +53,21 @@ pub fn imp_static(name: &str) -> &'static Encoding {
     }
 }
 
+pub static LAST_PANIC: std::sync::Mutex<String> = std::sync::Mutex::new(String::new());
+
+/// Panics of the crate under test are expected and captured per call; the hook stays quiet but
+/// remembers the last message and location so that a panic of the harness itself can be reported.
 pub fn install_quiet_panic_hook() {
-    std::panic::set_hook(Box::new(|_| {}));
+    std::panic::set_hook(Box::new(|info| {
+        let own = info.location().map(|l| !l.file().starts_with("/repo") && !l.file().contains("x.rs")).unwrap_or(true);
+        if own {
+            if let Ok(mut g) = LAST_PANIC.try_lock() {
+                if g.len() < 2000 {
+                    g.push_str(&format!("{} || ", info));
+                }
+            }
+        }
+    }));
 }
 
 #[derive(Clone, Copy, PartialEq, Eq, Hash, Debug)]
